@@ -1,20 +1,30 @@
 /-
 C18 — A model inferred from headers reads data like the explicit model it denotes.
 
-Model: `Rpft/Infer.lean` (model_inference.py line by line).  Lemmas: `Rpft/Lemmas/Infer.lean`.
+Model: `Rpft/Infer.lean` (model_inference.py line by line).  Lemmas: `Rpft/Lemmas/Infer.lean`
+(strings, one header), `Lemmas/InferNested.lean` (the two loops, list detection, induction on the
+type), `Lemmas/InferNorm.lean` (equivalence up to field order), `Lemmas/InferPerm.lean` (any
+column order).
 
-What is proved for ALL inputs (no bounds):
-* `header_roundtrip`  — one annotated header: for every name the syntax can carry and every
-  basic / `list` / `List[T]` type (T nested to any depth) with any default of the family, the
-  header `name:type=default` is read back as exactly (name, type, default);
-* `infer_render_flat_partial` — every family schema whose fields are written as one header
-  each (any number of fields, any such types and defaults) is inferred back exactly;
+Proved for ALL inputs (structural induction, no bound on depth or width):
+* `header_roundtrip`  — one annotated header `name:type=default` is read back exactly;
+* **`infer_render`** (= `C18_full`, main theorem) — every schema of the family (basic fields,
+  `list`/`List[T]`, sub-records, indexed lists with per-index defaults, lists of records, lists
+  of lists, nested to any depth) rendered to its canonical headers is inferred back EXACTLY;
+* **`infer_order_insensitive`** — for every schema of the family with its fields in ANY order
+  (`InFamilyU`) and ANY permutation of its header list (interleaved fields, column-major lists of
+  records, split sub-records/lists, list entries out of order) the inferred model is the schema
+  up to the order of the fields (`TyEquiv`: equal after sorting the fields of every record by
+  name; an equivalence relation, `tyEquiv_equivalence`); corollaries for the column orders the
+  harness generates (`infer_column_moved`, `infer_adjacent_swap`, `infer_sorted_columns`) and
+  `infer_perm_agree` (two orders of the same columns give equivalent models);
 * `infer_cells_independent` — the inferred model is a function of the headers alone.
-`C18_full` (any nesting depth: records, indexed lists, lists of records) stays visible below;
-it is kernel-checked on the nested instances `nested_instances` (depth 1–3, every construct)
-and tied to the real code by the harness on thousands of generated schemas per run.
+The index-order condition "entries of one list are opened in increasing order" is asserted by
+`RowParser.find_entry` (rowparser.py), NOT by model_inference.py: inference does not need it
+(`index_order_not_needed`).
 -/
-import Rpft.Lemmas.Infer
+import Rpft.Lemmas.InferPerm
+import Rpft.Lemmas.InferRow
 import Rpft.Gen.Tables
 set_option linter.unusedSimpArgs false
 set_option linter.unusedVariables false
@@ -26,6 +36,8 @@ source / running interpreter (regenerated on every run). -/
 theorem tables_agree :
     Gen.headerSeparators = [sepField, sepType, sepDefault] ∧
     Gen.parserModelAttrs = shadowNames ∧ Gen.uniDigitZeros = uniDigitZeros := by decide
+
+def subAB0 : List Field := [("a".toList, .str, .str []), ("b".toList, .int, .int 5)]
 
 /-- The full statement: every schema of the family, rendered to annotated headers, is inferred
 back exactly — names, types, defaults, nesting to any depth. -/
@@ -51,9 +63,9 @@ theorem header_roundtrip {n : Str} (hn : nameOk n = true) (t : Ty) (d : Val)
 example : nameOk "my field".toList = true ∧ isSimple (.list (.list .int)) (.list []) = true ∧
     famTD (.list (.list .int)) (.list []) = true := by decide
 
-/-- **Flat schemas** (proved part of `C18_full`): any number of fields, each `str`/`int`/`float`/
-`bool` with any default of the family, `list`, or `List[T]` for any annotation type `T`. -/
-theorem infer_render_flat_partial (sch : Schema) (h : InFamily sch) (hflat : Flat sch) :
+/-- **Flat schemas** (the first level of `infer_render`, proved directly): any number of fields,
+each `str`/`int`/`float`/`bool` with any default of the family, `list`, or `List[T]`. -/
+theorem infer_render_flat (sch : Schema) (h : InFamily sch) (hflat : Flat sch) :
     infer (renderHeaders sch) = .ok (.model sch) := by
   unfold InFamily inFamilyB at h
   simp only [Bool.and_eq_true] at h
@@ -74,14 +86,288 @@ example : InFamily [("a".toList, .int, .int 5), ("b c".toList, .list .bool, .lis
   unfold Flat
   decide
 
+/-- **The nested round trip (main theorem, all schemas).**  Every schema of the family — basic
+fields with defaults, `list` / `List[T]`, sub-records `a.b`, indexed lists `a.1, a.2` with
+per-index defaults, lists of records `a.1.x`, lists of lists, nested to ANY depth and of any
+width — rendered to its canonical header list is inferred back as exactly that schema: same
+field names in the same order, same types, same defaults.  By induction on the size of the
+type (`Lemmas/InferNested.lean`: `nested_roundtrip`, `level_exact`), no bound on depth. -/
+theorem infer_render (sch : Schema) (h : InFamily sch) :
+    infer (renderHeaders sch) = .ok (.model sch) :=
+  infer_render_family sch h
+
+/-- the full statement is proved -/
+theorem C18_full_holds : C18_full := infer_render
+
+/-- non-vacuity: a depth-3 schema with every construct is in the family -/
+example : InFamily [("x".toList, .bool, .bool true),
+    ("r".toList, .model [("k".toList, .float, .float (-3)),
+        ("l".toList, .list (.model [("m".toList, .str, .str "d".toList)]),
+          .list [defaultRecord [("m".toList, .str, .str "d".toList)]])],
+      defaultRecord [("k".toList, .float, .float (-3)),
+        ("l".toList, .list (.model [("m".toList, .str, .str "d".toList)]),
+          .list [defaultRecord [("m".toList, .str, .str "d".toList)]])])] := by decide
+
+/-! ### the same model up to the order of the fields -/
+
+theorem tyEquiv_refl (a : Ty) : TyEquiv a a := rfl
+theorem tyEquiv_symm {a b : Ty} (h : TyEquiv a b) : TyEquiv b a := Eq.symm h
+theorem tyEquiv_trans {a b c : Ty} (h₁ : TyEquiv a b) (h₂ : TyEquiv b c) : TyEquiv a c :=
+  Eq.trans h₁ h₂
+
+/-- `TyEquiv` (equal after sorting the fields of every record — type and default value, at every
+depth — by name) is an equivalence relation. -/
+theorem tyEquiv_equivalence : Equivalence TyEquiv :=
+  ⟨tyEquiv_refl, tyEquiv_symm, tyEquiv_trans⟩
+
+/-- it identifies what it should: records whose field lists are permutations of each other
+(distinct names) … -/
+theorem tyEquiv_of_perm {as bs : List Field} (hp : as.Perm bs)
+    (hd : (as.map (fun f => f.1)).Nodup) : TyEquiv (.model as) (.model bs) := by
+  unfold TyEquiv
+  simp only [Ty.norm, Ty.normF_eq_map]
+  congr 1
+  apply isortK_eq_of_perm _ (hp.map normField)
+  simpa [List.map_map, Function.comp_def, normField] using hd
+
+example : [("a".toList, Ty.int, Val.int 1), ("b".toList, Ty.str, Val.str [])].Perm
+    [("b".toList, Ty.str, Val.str []), ("a".toList, Ty.int, Val.int 1)] ∧
+    ([("a".toList, Ty.int, Val.int 1), ("b".toList, Ty.str, Val.str [])].map (fun f => f.1)).Nodup :=
+  ⟨List.Perm.swap _ _ _, by decide⟩
+
+/-- … and nothing more: equivalent records have the same field names, … -/
+theorem tyEquiv_model_names {as bs : List Field} (h : TyEquiv (.model as) (.model bs)) :
+    (as.map (fun f => f.1)).Perm (bs.map (fun f => f.1)) := by
+  unfold TyEquiv at h
+  simp only [Ty.norm, Ty.normF_eq_map, Ty.model.injEq] at h
+  have e : ∀ L : List Field, L.map (fun f => f.1) = (L.map normField).map (fun f => f.1) := by
+    intro L; simp [List.map_map, Function.comp_def, normField]
+  rw [e as, e bs]
+  have p1 := isortK_perm (fun f : Field => f.1) (as.map normField)
+  have p2 := isortK_perm (fun f : Field => f.1) (bs.map normField)
+  rw [h] at p1
+  exact (p1.symm.trans p2).map _
+
+/-- … a different type or default of a field is a different model (kernel-checked). -/
+theorem tyEquiv_distinguishes :
+    ¬ TyEquiv (.model [("a".toList, .int, .int 0)]) (.model [("a".toList, .str, .str [])]) ∧
+    ¬ TyEquiv (.model [("a".toList, .int, .int 0)]) (.model [("a".toList, .int, .int 1)]) ∧
+    ¬ TyEquiv (.list (.model [("a".toList, .int, .int 0)])) (.model [("a".toList, .int, .int 0)]) := by
+  decide +kernel
+
+/-- **Order-insensitivity (all schemas, all column orders).**  Let `sch` be any schema of the
+family with its fields in any order (`InFamilyU`: `InFamily` without "simple fields first") and
+`hs` ANY permutation of its rendered headers — fields interleaved, a list of records written
+column-major, a sub-record or a list split by other columns, list entries out of order, at any
+depth.  Then inference succeeds and the inferred model is `sch` up to the order of the fields
+of each record (types, defaults, nesting all equal).  By induction on the size of the type
+(`Lemmas/InferPerm.lean`: `perm_roundtrip`, `level_perm`). -/
+theorem infer_order_insensitive (sch : Schema) (h : InFamilyU sch) (hs : List Str)
+    (hp : hs.Perm (renderHeaders sch)) : ∃ t, infer hs = .ok t ∧ TyEquiv t (.model sch) :=
+  infer_perm_family sch h hs hp
+
+/-- the schema of the non-vacuity examples: a complex field BEFORE a simple one (outside
+`InFamily`), a list of two records, an indexed list -/
+def orderDemo : Schema :=
+  [("o".toList, .list (.model [("text".toList, .str, .str []), ("value".toList, .int, .int 5)]),
+      .list [defaultRecord [("text".toList, .str, .str []), ("value".toList, .int, .int 5)],
+             defaultRecord [("text".toList, .str, .str []), ("value".toList, .int, .int 5)]]),
+   ("note".toList, .str, .str "n".toList),
+   ("tag".toList, .list .str, .list [.str "a".toList, .str []])]
+
+/-- column-major `o`, `tag` split by `note`, `tag.2` before `tag.1` -/
+def orderDemoHeaders : List Str :=
+  ["tag.2", "o.1.text", "o.2.text", "note=n", "o.2.value:int=5", "o.1.value:int=5", "tag.1=a"].map
+    String.toList
+
+/-- non-vacuity of `infer_order_insensitive` (hypotheses), and its conclusion evaluated by the
+kernel on this instance -/
+theorem order_demo : InFamilyU orderDemo ∧ ¬ InFamily orderDemo ∧
+    orderDemoHeaders.Perm (renderHeaders orderDemo) ∧
+    (match infer orderDemoHeaders with
+      | .ok t => decide (TyEquiv t (.model orderDemo)) && !Ty.beq t (.model orderDemo)
+      | .error _ => false) = true := by
+  refine ⟨by decide, by decide, ?_, by decide +kernel⟩
+  rw [List.perm_iff_count]
+  intro a
+  by_cases h : a ∈ orderDemoHeaders
+  · revert a; decide +kernel
+  · have h' : a ∉ renderHeaders orderDemo := by
+      have e : ∀ x, x ∈ renderHeaders orderDemo → x ∈ orderDemoHeaders := by decide +kernel
+      exact fun hx => h (e a hx)
+    rw [List.count_eq_zero.mpr h, List.count_eq_zero.mpr h']
+
+/-- the canonical headers of a schema whose fields are in any order -/
+theorem infer_render_any_field_order (sch : Schema) (h : InFamilyU sch) :
+    ∃ t, infer (renderHeaders sch) = .ok t ∧ TyEquiv t (.model sch) :=
+  infer_order_insensitive sch h _ (List.Perm.refl _)
+
+/-- the ordered family is part of the unordered one -/
+theorem inFamily_inFamilyU {sch : Schema} (h : InFamily sch) : InFamilyU sch := inFamily_U h
+
+/-- **Two column orders of the same sheet give equivalent models.** -/
+theorem infer_perm_agree (sch : Schema) (h : InFamilyU sch) (hs₁ hs₂ : List Str)
+    (h₁ : hs₁.Perm (renderHeaders sch)) (h₂ : hs₂.Perm hs₁) :
+    ∃ t₁ t₂, infer hs₁ = .ok t₁ ∧ infer hs₂ = .ok t₂ ∧ TyEquiv t₁ t₂ := by
+  obtain ⟨t₁, e₁, q₁⟩ := infer_order_insensitive sch h hs₁ h₁
+  obtain ⟨t₂, e₂, q₂⟩ := infer_order_insensitive sch h hs₂ (h₂.trans h₁)
+  exact ⟨t₁, t₂, e₁, e₂, tyEquiv_trans q₁ (tyEquiv_symm q₂)⟩
+
+example : InFamilyU orderDemo ∧ orderDemoHeaders.Perm (renderHeaders orderDemo) ∧
+    orderDemoHeaders.reverse.Perm orderDemoHeaders :=
+  ⟨order_demo.1, order_demo.2.2.1, List.reverse_perm _⟩
+
+/-- against the canonical order of an ordered schema: the permuted headers give the model of
+`infer_render` up to field order -/
+theorem infer_perm_vs_canonical (sch : Schema) (h : InFamily sch) (hs : List Str)
+    (hp : hs.Perm (renderHeaders sch)) :
+    ∃ t, infer hs = .ok t ∧ infer (renderHeaders sch) = .ok (.model sch) ∧
+      TyEquiv t (.model sch) := by
+  obtain ⟨t, e, q⟩ := infer_order_insensitive sch (inFamily_inFamilyU h) hs hp
+  exact ⟨t, e, infer_render sch h, q⟩
+
+example : InFamily subAB0 ∧ ["b:int=5".toList, "a".toList].Perm (renderHeaders subAB0) :=
+  ⟨by decide, List.Perm.swap _ _ _⟩
+
+/-- harness mode "split": ONE column moved somewhere else -/
+theorem infer_column_moved (sch : Schema) (h : InFamilyU sch) (pre mid post : List Str) (x : Str)
+    (hr : renderHeaders sch = pre ++ x :: mid ++ post) :
+    ∃ t, infer (pre ++ mid ++ x :: post) = .ok t ∧ TyEquiv t (.model sch) := by
+  apply infer_order_insensitive sch h
+  rw [hr]
+  simp only [List.append_assoc, List.cons_append]
+  exact List.Perm.append_left pre List.perm_middle
+
+example : InFamilyU orderDemo ∧ renderHeaders orderDemo =
+    ["o.1.text".toList] ++ "o.1.value:int=5".toList :: ["o.2.text".toList] ++
+      ["o.2.value:int=5", "note=n", "tag.1=a", "tag.2"].map String.toList :=
+  ⟨order_demo.1, by decide +kernel⟩
+
+/-- harness mode "shuffle": two adjacent columns swapped (any two; with `infer_perm_agree` /
+transitivity of `TyEquiv` every interleaving is a chain of such swaps) -/
+theorem infer_adjacent_swap (sch : Schema) (h : InFamilyU sch) (pre post : List Str) (x y : Str)
+    (hr : renderHeaders sch = pre ++ x :: y :: post) :
+    ∃ t, infer (pre ++ y :: x :: post) = .ok t ∧ TyEquiv t (.model sch) := by
+  apply infer_order_insensitive sch h
+  rw [hr]
+  exact List.Perm.append_left pre (List.Perm.swap x y post)
+
+example : InFamilyU orderDemo ∧ renderHeaders orderDemo =
+    ["o.1.text".toList] ++ "o.1.value:int=5".toList :: "o.2.text".toList ::
+      ["o.2.value:int=5", "note=n", "tag.1=a", "tag.2"].map String.toList :=
+  ⟨order_demo.1, by decide +kernel⟩
+
+/-- harness mode "column_major": the columns re-sorted by ANY key (stable merge sort by any
+comparison — e.g. by the path without its indices, then by the indices) -/
+theorem infer_sorted_columns (sch : Schema) (h : InFamilyU sch) (le : Str → Str → Bool) :
+    ∃ t, infer ((renderHeaders sch).mergeSort le) = .ok t ∧ TyEquiv t (.model sch) :=
+  infer_order_insensitive sch h _ (List.mergeSort_perm _ _)
+
+example : InFamilyU orderDemo := order_demo.1
+
+/-! ### what cannot be dropped or strengthened -/
+
+/-- "up to field order" cannot be strengthened to equality: the fields come out in the order of
+the columns (simple ones first) -/
+theorem needs_up_to_field_order :
+    let sch : Schema := [("a".toList, .str, .str []), ("b".toList, .str, .str [])]
+    InFamily sch ∧ ["b".toList, "a".toList].Perm (renderHeaders sch) ∧
+    inferIs ["b".toList, "a".toList] (.model sch) = false ∧
+    inferIs ["b".toList, "a".toList] (.model sch.reverse) = true := by
+  refine ⟨by decide, List.Perm.swap _ _ _, by decide +kernel, by decide +kernel⟩
+
+/-- distinct field names are needed: with a repeated name the LAST column wins, so the order of
+the columns changes the model beyond field order -/
+theorem needs_distinct_names :
+    let sch : Schema := [("a".toList, .int, .int 0), ("a".toList, .str, .str [])]
+    inFamilyUB sch = false ∧ ["a".toList, "a:int".toList].Perm (renderHeaders sch) ∧
+    inferIs (renderHeaders sch) (.model [("a".toList, .str, .str [])]) = true ∧
+    inferIs ["a".toList, "a:int".toList] (.model [("a".toList, .int, .int 0)]) = true ∧
+    ¬ TyEquiv (.model [("a".toList, .str, .str [])]) (.model [("a".toList, .int, .int 0)]) := by
+  refine ⟨by decide, List.Perm.swap _ _ _, by decide +kernel, by decide +kernel, by decide +kernel⟩
+
+/-- the same columns are needed (a permutation): a missing entry column changes the model -/
+theorem needs_same_columns :
+    let sch : Schema := [("f".toList, .list .str, .list [.str [], .str []])]
+    InFamily sch ∧ renderHeaders sch = ["f.1".toList, "f.2".toList] ∧
+    inferIs ["f.1".toList] (.model [("f".toList, .list .str, .list [.str []])]) = true ∧
+    ¬ TyEquiv (.model [("f".toList, .list .str, .list [.str []])]) (.model sch) := by
+  refine ⟨by decide, by decide +kernel, by decide +kernel, by decide +kernel⟩
+
+/-- the condition "the entries of one list are opened in increasing index order" is asserted by
+`RowParser.find_entry` when ROWS are parsed; `model_from_headers` does not need it: entry
+columns in any order (even descending) give the same list type with the same per-index
+defaults -/
+theorem index_order_not_needed :
+    let want : Ty := .model [("f".toList, .list .str, .list [.str "a".toList, .str "b".toList, .str "c".toList])]
+    inferIs (["f.1=a", "f.2=b", "f.3=c"].map String.toList) want = true ∧
+    inferIs (["f.3=c", "f.1=a", "f.2=b"].map String.toList) want = true ∧
+    inferIs (["f.3=c", "f.2=b", "f.1=a"].map String.toList) want = true := by decide +kernel
+
+/-- … whereas an index that is never written leaves a `None` hole in the default (not the
+rendering of any schema) -/
+theorem missing_index_leaves_hole :
+    inferIs ["f.1=a".toList, "f.3=c".toList]
+      (.model [("f".toList, .list .str, .list [.str "a".toList, .none, .str "c".toList])]) = true := by
+  decide +kernel
+
+/-! ### rows: the inferred model parses like the explicit one -/
+
+/-- **Inferred = explicit on every row** (the property's own observable, over the `RowParser`
+model `Rpft/RowParse.lean`).  For every schema of the family and EVERY row (any cells: valid,
+blank, malformed, columns missing or unknown), parsing the row with the model inferred from the
+schema's headers gives exactly the outcome — value or error — of parsing it with the explicit
+model: `infer_render` composed with the row parser (same model ⇒ same parse). -/
+theorem inferred_parses_like_explicit (sch : Schema) (h : InFamily sch) (row : List (Str × Str)) :
+    parseInferred (renderHeaders sch) row = some (Row.parseRow (rowSchema (.model sch)) row) := by
+  unfold parseInferred
+  rw [infer_render sch h]
+
+/-- a sheet of the non-vacuity example: simple field, list of records, indexed list -/
+def rowDemo : Schema :=
+  [("note".toList, .str, .str "n".toList),
+   ("o".toList, .list (.model [("text".toList, .str, .str []), ("value".toList, .int, .int 5)]),
+      .list [defaultRecord [("text".toList, .str, .str []), ("value".toList, .int, .int 5)],
+             defaultRecord [("text".toList, .str, .str []), ("value".toList, .int, .int 5)]]),
+   ("tag".toList, .list .str, .list [.str "a".toList, .str []])]
+
+/-- non-vacuity: the schema is in the family and a row (column `o.2.value` left out) parses to
+a value under the inferred model — cells converted, the missing entry filled with the default
+`5` of the header `o.2.value:int=5` (evaluated by the kernel) -/
+theorem row_demo : InFamily rowDemo ∧
+    (match parseInferred (renderHeaders rowDemo)
+        ([("note=n", "hello"), ("o.1.text", "t1"), ("o.1.value:int=5", "7"), ("o.2.text", "t2"),
+          ("tag.1=a", "x"), ("tag.2", "")].map (fun p => (p.1.toList, p.2.toList))) with
+      | some (.ok v) => Row.Val.beq v (.model
+          [("note".toList, .str "hello".toList),
+           ("o".toList, .list [.model [("text".toList, .str "t1".toList), ("value".toList, .int 7)],
+                              .model [("text".toList, .str "t2".toList), ("value".toList, .int 5)]]),
+           ("tag".toList, .list [.str "x".toList, .str []])])
+      | _ => false) = true := by
+  refine ⟨by decide, by decide +kernel⟩
+
+/-- where the index-order condition lives: the MODEL is inferred from columns in any order
+(`infer_order_insensitive`), but `RowParser.find_entry` asserts that the entries of one list
+are opened in increasing order when a ROW is read — the same columns with `tag.2` before
+`tag.1` are an `AssertionError` under the inferred and under the explicit model alike -/
+theorem row_parser_asserts_index_order :
+    let cols := [("tag.2", "y"), ("tag.1=a", "x")].map (fun p : String × String => (p.1.toList, p.2.toList))
+    (match parseInferred (cols.map (fun c => c.1)) cols with
+      | some (.error e) => decide (e = Row.Err.assertion)
+      | _ => false) = true ∧
+    (match Row.parseRow (rowSchema (.model [("tag".toList, .list .str, .list [.str "a".toList, .str []])])) cols with
+      | .error e => decide (e = Row.Err.assertion)
+      | _ => false) = true := by decide +kernel
+
 /-- **Cell independence**: with a blank `data_model` the row model is computed from the header
 row only; two sheets with the same headers get the same model whatever their cells. -/
 theorem infer_cells_independent (headers : List Str) (cells₁ cells₂ : List (List Str)) :
     inferSheet headers cells₁ = inferSheet headers cells₂ := rfl
 
-/-! ### `C18_full` on nested instances (kernel-checked) -/
+/-! ### `infer_render` on nested instances, evaluated by the kernel (sanity check of the model's
+own round trip; the theorem above covers all schemas) -/
 
-def subAB : List Field := [("a".toList, .str, .str []), ("b".toList, .int, .int 5)]
+def subAB : List Field := subAB0
 
 /-- depth 1–3: record, indexed list with per-index defaults, list of records, list of lists,
 record in record in list -/
@@ -113,17 +399,20 @@ theorem dotted_default_roundtrips :
 /-- `:` in a name -/
 theorem needs_no_colon_in_name :
     let sch : Schema := [("a:b".toList, .str, .str [])]
-    inFamilyB sch = false ∧ roundtripB sch = false := by decide +kernel
+    inFamilyB sch = false ∧ roundtripB sch = false ∧
+    inFamilyUB sch = false ∧ inferEquivB (renderHeaders sch) (.model sch) = false := by decide +kernel
 
 /-- `=` in a name -/
 theorem needs_no_equals_in_name :
     let sch : Schema := [("a=b".toList, .int, .int 0)]
-    inFamilyB sch = false ∧ roundtripB sch = false := by decide +kernel
+    inFamilyB sch = false ∧ roundtripB sch = false ∧
+    inFamilyUB sch = false ∧ inferEquivB (renderHeaders sch) (.model sch) = false := by decide +kernel
 
 /-- a name that reads as an integer turns the record into a list -/
 theorem needs_non_integer_name :
     let sch : Schema := [("1".toList, .str, .str [])]
     inFamilyB sch = false ∧ roundtripB sch = false ∧
+    inFamilyUB sch = false ∧ inferEquivB (renderHeaders sch) (.model sch) = false ∧
     inferIs (renderHeaders sch) (.list .str) = true := by decide +kernel
 
 /-- list elements share one element type: the code keeps the LAST one and the per-index
@@ -137,18 +426,34 @@ theorem needs_list_of_record_default :
     let sub : List Field := [("a".toList, .str, .str [])]
     let bad : Schema := [("f".toList, .list (.model sub), .list [])]
     let good : Schema := [("f".toList, .list (.model sub), .list [defaultRecord sub, defaultRecord sub])]
-    inFamilyB bad = false ∧ roundtripB bad = false ∧ inFamilyB good = true ∧ roundtripB good = true := by
+    inFamilyB bad = false ∧ roundtripB bad = false ∧ inFamilyB good = true ∧ roundtripB good = true ∧
+    inFamilyUB bad = false ∧ inferEquivB (renderHeaders bad) (.model bad) = false := by
   decide +kernel
 
-/-- the code lists simple fields before complex ones -/
+/-- the code lists simple fields before complex ones (needed for EXACT equality only: the schema
+is in `InFamilyU` and `infer_order_insensitive` applies) -/
 theorem needs_simple_first :
     let sch : Schema := [("r".toList, .model [("a".toList, .str, .str [])],
       defaultRecord [("a".toList, .str, .str [])]), ("b".toList, .str, .str [])]
-    inFamilyB sch = false ∧ roundtripB sch = false := by decide +kernel
+    inFamilyB sch = false ∧ roundtripB sch = false ∧
+    inFamilyUB sch = true ∧ inferEquivB (renderHeaders sch) (.model sch) = true := by decide +kernel
 
 /-- a text default with leading/trailing blanks is stripped -/
 theorem needs_stripped_default :
     let sch : Schema := [("s".toList, .str, .str " x".toList)]
-    inFamilyB sch = false ∧ roundtripB sch = false := by decide +kernel
+    inFamilyB sch = false ∧ roundtripB sch = false ∧
+    inFamilyUB sch = false ∧ inferEquivB (renderHeaders sch) (.model sch) = false := by decide +kernel
+
+/-- a sub-record needs at least one field (no column would mention it) -/
+theorem needs_nonempty_subrecord :
+    let sch : Schema := [("a".toList, .str, .str []), ("r".toList, .model [], defaultRecord [])]
+    inFamilyB sch = false ∧ inFamilyUB sch = false ∧ roundtripB sch = false ∧
+    inferEquivB (renderHeaders sch) (.model sch) = false := by decide +kernel
+
+/-- `List[T]` in ONE column needs an annotation type `T` (no record inside) -/
+theorem needs_annotation_type :
+    let sch : Schema := [("l".toList, .list (.model [("a".toList, .str, .str [])]), .list [])]
+    inFamilyB sch = false ∧ inFamilyUB sch = false ∧ roundtripB sch = false ∧
+    inferEquivB (renderHeaders sch) (.model sch) = false := by decide +kernel
 
 end Rpft.Props.C18
